@@ -6,7 +6,7 @@ Each prompt = COMMON text + the property's text + a terse list of changes earlie
 import glob, json, os, re, sys
 
 rnd = sys.argv[1]
-common = open("/verif/docs/SEED_PROMPT_COMMON_R5.txt" if rnd >= "5" else "/verif/docs/SEED_PROMPT_COMMON_R4.txt" if rnd >= "4" else "/verif/docs/SEED_PROMPT_COMMON.txt").read()
+common = open("/verif/docs/SEED_PROMPT_COMMON_R6.txt" if rnd >= "6" else "/verif/docs/SEED_PROMPT_COMMON_R5.txt" if rnd >= "5" else "/verif/docs/SEED_PROMPT_COMMON_R4.txt" if rnd >= "4" else "/verif/docs/SEED_PROMPT_COMMON.txt").read()
 props = {json.loads(l)["id"]: json.loads(l) for l in open("/verif/properties.jsonl")}
 claimed = open("/verif/tools/ready.txt").read().split()
 done = {}
